@@ -9,6 +9,9 @@ package main
 //   C CREATE <marker> <mboxID> <flags|-> | C ADD <marker> <mboxID> | C REMOVE <marker> <mboxID>
 //   C SEEN <marker> <0|1> | C FLAGGED <marker> <0|1> | C DELETE <marker>
 //   X BARRIER | X HOLD <i> | X RELEASE <i> <k> | X CONVERGE | X RACY
+//   S<i> STALL <imap command...> | S<i> UNSTALL          (hist_c02.go: the command is sent and its answer is not read,
+//                                                          so the session stays inside the command and takes no update)
+//   C BULK <id> <mbox> <count> <flags|-> [<KiB>]         (hist_c02.go: one connector MessagesCreated batch)
 //
 // Scheduling: unless the history starts with `X RACY`, every session step first waits until all
 // sessions have applied the state updates queued so far (a barrier on the states only; the connector
@@ -59,6 +62,10 @@ type HistSession struct {
 	held     bool
 	trace    []string // event trace for the Lean judge
 	n0       int
+	// a command whose answer the client has not read yet (S<i> STALL, hist_c02.go)
+	stalled   bool
+	stallTag  string
+	stallKind string
 }
 
 type Violation struct {
@@ -83,6 +90,9 @@ type HistRunner struct {
 	expungeDuring map[string]int
 	followUp      []string // steps the generator has committed to emit next (multi-step patterns)
 	racy          bool     // X RACY seen: session commands do not wait for in-flight updates
+	// online multi-step pattern (hist_c02.go): returns the next step, "" when it is finished
+	pattern     func(r *Rng) string
+	patternsRun map[string]int
 }
 
 func mboxID(name string) imap.MailboxID {
@@ -256,6 +266,11 @@ func (h *HistRunner) exec1(step string) error {
 	case f[0] == "X":
 		switch f[1] {
 		case "BARRIER":
+			if h.c02AnyStalled() {
+				// a session that is kept inside a command takes no update (and no barrier) until its client reads on
+				h.sys.Conn.Flush()
+				return nil
+			}
 			if err := h.sys.Barrier(); err != nil {
 				return err
 			}
@@ -305,6 +320,8 @@ func (h *HistRunner) execConn(f []string) (err error) {
 		}
 	}()
 	switch f[1] {
+	case "BULK":
+		return h.c02ExecBulk(f)
 	case "CREATE":
 		marker, mb := f[2], f[3]
 		flags := imap.NewFlagSet()
@@ -372,7 +389,12 @@ func (h *HistRunner) execSession(i int, op string, args []string, step string) e
 	if s == nil {
 		return nil
 	}
-	if !h.racy {
+	if op == "STALL" || op == "UNSTALL" || s.stalled {
+		if done, err := h.c02ExecStall(s, op, args); done || err != nil {
+			return err
+		}
+	}
+	if !h.racy && !h.c02AnyStalled() {
 		if err := h.quiesceStates(); err != nil {
 			return err
 		}
@@ -451,7 +473,7 @@ func (h *HistRunner) execSession(i int, op string, args []string, step string) e
 	case "ISSUED":
 		// C05: after a barrier, a FETCH/STORE/SEARCH that holds back removals must say [EXPUNGEISSUED], and
 		// only then: run the command, then NOOP at once; NOOP announces a removal iff the command said so.
-		if s.idle || s.selected == "" || s.held {
+		if s.idle || s.selected == "" || s.held || h.c02AnyStalled() {
 			return nil
 		}
 		if err := h.sys.Barrier(); err != nil {
@@ -637,6 +659,9 @@ func (h *HistRunner) feedProbe(s *HistSession, rep Reply) {
 
 // converge: C02. Barrier, NOOP in every session, then the long-lived view must equal a fresh EXAMINE.
 func (h *HistRunner) converge() error {
+	if err := h.c02UnstallAll(); err != nil {
+		return err
+	}
 	for _, s := range h.sess {
 		if s != nil && s.held {
 			h.sys.Server.VerifRelease(s.stateID, -1, true)
@@ -754,6 +779,9 @@ func (h *HistRunner) GenStep(r *Rng, nsess int, profile string) string {
 	if len(h.followUp) > 0 {
 		st := h.followUp[0]
 		h.followUp = h.followUp[1:]
+		return st
+	}
+	if st := h.c02PatternStep(r, nsess, profile); st != "" {
 		return st
 	}
 	if strings.Contains(profile, "race") && !h.racy && len(h.steps) == 0 {
